@@ -1,5 +1,6 @@
 """C05 — flattening: no re-entrant call under the state lock (DESIGN §3 C05)."""
 from ..core import (Finding, lock_scopes, node_desc, SUBSCRIBE, FN_CALLS, recv_class)
+from ..expr import access_path
 from .. import roles
 
 ID = 'C05'
@@ -7,8 +8,7 @@ LEVEL = 'other'
 EXPLANATION = ('SCOPE rule F1 on the four merge_all observers and their queued subscribe tasks: no inner observable is subscribed, and no '
                'stored (queued) closure is called, while a guard of the shared observer_data cell may be held. An inner observable that emits '
                'synchronously at subscription re-enters InnerObserver::next, which re-acquires the same cell: RefCell panics, Mutex '
-               'self-deadlocks. F3: each observer method takes its decision and acts on it within one acquisition of the shared state (no check-then-act split). F2: the queue of waiting inner subscriptions is first-in-first-out (necessary for concat order and for merge_all(n) serving waiters in arrival order). Decides the "without panicking or blocking" clause and this ordering precondition; exactly-once delivery, order, the concurrency '
-               'bound and the completion condition are counter arithmetic over runtime values and are not decided. Inner/outer error '
+               'self-deadlocks. F4: slot accounting — outer next subscribes only into a free slot (counting it) and otherwise queues exactly once; an inner completion hands its slot to exactly one waiting task or gives it back; a queued task subscribes once and leaves the counter alone (decision tables over running - limit, abstract interpretation). F3: each observer method takes its decision and acts on it within one acquisition of the shared state (no check-then-act split). F2: the queue of waiting inner subscriptions is first-in-first-out (necessary for concat order and for merge_all(n) serving waiters in arrival order). Decides the "without panicking or blocking" clause and this ordering precondition; exactly-once delivery, order, order beyond F2 and the completion condition are not decided. Inner/outer error '
                'envelopes are checked under C03.S2.')
 ASSUMPTIONS = ['an inner observable may emit synchronously during actual_subscribe']
 
@@ -62,6 +62,8 @@ def check(cx):
         else:
             res.append(Finding(ID, 'F1', label, True, '%d subscribe/queued-task site(s), none under the state guard' % len(sites), fn['span']))
     res += f3(cx, ID, 'F3')
+    if not cx.control:
+        res += f4(cx)
     from ..core import fifo_findings
     ff = fifo_findings(cx, ID, 'F2', ('src/ops/merge_all.rs',))
     res += ff
@@ -116,4 +118,93 @@ def f3(cx, prop, rule):
                                fn['span'], witness(g, pred, bad[0], interesting_default) if bad else None))
     if not cx.control and n < 12:
         res.append(Finding(prop, rule, 'floor', False, 'expected 12 merge_all observer methods, found %d' % n))
+    return res
+
+
+def f4(cx):
+    """slot accounting of merge_all(n): decision tables over d = running - limit (abstract interpretation, see tables.py).
+    outer next: a free slot (d <= -1) => count it (+1) and subscribe now, enqueue nothing; no free slot (d >= 0) => enqueue exactly
+    one task, count nothing, subscribe nothing. inner complete: either hand the slot to exactly one waiting task (counter
+    untouched) or give the slot back (-1) and start nothing. A queued task subscribes exactly once and does not touch the counter."""
+    from ..tables import summaries
+    from ..core import witness, interesting_default, Incomplete
+    F = cx.facts
+    res = []
+    data_adt = 'ops::merge_all::ObserverData'
+    usizes = [f for f, t in roles.adt_fields(cx, data_adt) if F.tystr(t) == 'usize']
+    written = set()
+    for fn in F.fns.values():
+        if fn['file'] != 'src/ops/merge_all.rs':
+            continue
+        g = cx.graph(fn['key'], inline=False)
+        for x in g.nodes:
+            if x['kind'] == 'assign':
+                root, steps = access_path(x['lhs'])
+                if steps and steps[-1] in usizes:
+                    written.add(steps[-1])
+    cnt = [f for f in usizes if f in written]
+    bnd = [f for f in usizes if f not in written]
+    if len(cnt) != 1 or len(bnd) != 1:
+        raise Incomplete('cannot tell the running counter from the limit among %s' % usizes)
+
+    def spec_outer_next(s):
+        if s['bad']:
+            return s['bad']
+        if s['empty']:
+            return None if (s['subs'] == 0 and s['pushes'] == 0 and s['k'] == 0) else 'acts although the state is gone'
+        if s['subs'] > 0:
+            if not (s['hi'] is not None and s['hi'] <= -1):
+                return 'subscribes an inner observable although no slot is free (running >= limit)'
+            if s['subs'] != 1 or s['k'] != 1 or s['pushes'] != 0:
+                return 'an inner subscribed right away must take exactly one slot and must not also be queued'
+            return None
+        if not (s['lo'] is not None and s['lo'] >= 0):
+            return 'queues (or drops) an inner observable although a slot is free'
+        if s['pushes'] != 1 or s['k'] != 0:
+            return 'an inner that finds no free slot must be queued exactly once without taking a slot'
+        return None
+
+    def spec_inner_complete(s):
+        if s['bad']:
+            return s['bad']
+        if s['empty']:
+            return None
+        if s['pops'] > 1 or s['calls'] > 1:
+            return 'one completion starts more than one waiting inner observable: more than `limit` run at a time'
+        if s['calls'] == 1:
+            return None if (s['pops'] == 1 and s['k'] == 0) else 'handing the slot to a waiting inner must leave the running counter untouched'
+        if s['pops'] != 0:
+            return 'a waiting task is taken from the queue but not started'
+        return None if s['k'] == -1 else 'a completion with nobody waiting must give exactly one slot back'
+
+    def spec_task(s):
+        if s['k'] != 0:
+            return 'a queued task changes the running counter itself (the slot was already accounted for when it was handed over)'
+        return None if s['subs'] == 1 else 'a queued task must subscribe its inner observable exactly once'
+
+    for im in cx.observer_impls():
+        tag = roles.impl_tag(cx, im)
+        if tag not in TAGS:
+            continue
+        todo = []
+        if 'Outside' in tag:
+            fn = cx.method(im, 'next')
+            todo.append((fn, spec_outer_next, 'outer next'))
+            for ck in F.children.get(fn['key'], []):
+                todo.append((F.fns[ck], spec_task, 'queued task'))
+        else:
+            todo.append((cx.method(im, 'complete'), spec_inner_complete, 'inner complete'))
+        for fn, spec, what in todo:
+            g = cx.graph(fn['key'])
+            state = {'self.' + f for f, t in roles.adt_fields(cx, tag)} | {'self'}
+            sums, pred = summaries(g, counter=cnt[0], bound=bnd[0], slot_classes={c for c in state} | {'self.0'})
+            bad = None
+            for sm, key in sums:
+                why = spec(sm)
+                if why:
+                    bad = (why, key)
+                    break
+            res.append(Finding(ID, 'F4', cx.label(fn), not bad,
+                               ('slot accounting (%s): %s' % (what, bad[0])) if bad else 'slot accounting of %s agrees with merge_all(n) on %d path classes' % (what, len(sums)),
+                               fn['span'], witness(g, pred, bad[1], interesting_default) if bad else None))
     return res
